@@ -203,7 +203,7 @@ func TestVerifC18(t *testing.T) {
 	}
 	pairsPerCode := 8
 	if thorough {
-		pairsPerCode = 40
+		pairsPerCode = 200
 	}
 	var pairs []c18Pair
 	add := func(name string, a, b Table) {
